@@ -46,4 +46,56 @@ CANARIES = [
             origin,""")]),
     dict(id='c-sendstream-drop-no-reset', unit=U, what='dropping an unfinished send half no longer resets the stream', expect=['SendStream::drop::unfinished_stream_is_reset'],
          edits=[(CONN, '        let _ = self.0.reset(0u8.into());', '        let _ = &self.0;')]),
+    # ---- the two certificate verifiers and their helpers (proved in this unit since the X13 shape rules; the same edits are run on enum_certs) ----
+    dict(id='c-server-requested-name-not-checked', unit=U, what='a dialer accepts a server name it is not configured for', expect=['CertVerifier::verify_server_cert::requested_name_is_configured'],
+         edits=[(CR, """            .find(|name| name.as_str() == dns_name.as_ref())
+            .ok_or(rustls::Error::UnsupportedNameType)?;""", """            .find(|name| name.as_str() == dns_name.as_ref());""")]),
+    dict(id='c-server-name-compared-inverted', unit=U, what='the requested name must DIFFER from the configured ones', expect=['CertVerifier::verify_server_cert'],
+         edits=[(CR, '.find(|name| name.as_str() == dns_name.as_ref())', '.find(|name| name.as_str() != dns_name.as_ref())')]),
+    dict(id='c-server-name-validity-not-checked', unit=U, what='a dialer does not check that the certificate is valid for the requested name', expect=['CertVerifier::verify_server_cert::certificate_valid_for_requested_name'],
+         edits=[(CR, """        verified_cert
+            .end_entity()
+            .verify_is_valid_for_subject_name(server_name)
+            .map_err(pki_error)
+            .map(|_| ServerCertVerified::assertion())""", """        let _ = verified_cert.end_entity();
+        Ok(ServerCertVerified::assertion())""")]),
+    dict(id='c-server-usage-client-auth', unit=U, what='a dialer validates the listener certificate for the wrong key usage', expect=['CertVerifier::verify_server_cert::valid_self_signed_ed25519_for_server_auth'],
+         edits=[(CR, '                webpki::KeyUsage::server_auth(),\n', '                webpki::KeyUsage::client_auth(),\n')]),
+    dict(id='c-trust-root-from-chain', unit=U, what='the trust root is taken from the certificates the peer sent along', expect=['prepare_for_self_signed::only_trust_root_is_the_certificate_itself'],
+         edits=[(CR, 'let root = webpki::anchor_from_trusted_cert(end_entity).map_err(pki_error)?;', 'let root = webpki::anchor_from_trusted_cert(&intermediates[0]).map_err(pki_error)?;')]),
+    dict(id='c-unparsable-anchor-tolerated', unit=U, what='a certificate that cannot be made a trust anchor is validated against an empty store instead of refused', expect=['prepare_for_self_signed::'],
+         edits=[(CR, """    let root = webpki::anchor_from_trusted_cert(end_entity).map_err(pki_error)?;
+
+    Ok((cert, intermediates, vec![root]))""", """    let root = webpki::anchor_from_trusted_cert(end_entity).map_err(pki_error);
+
+    Ok((cert, intermediates, match root { Ok(r) => vec![r], Err(_) => vec![] }))""")]),
+    dict(id='c-client-name-check-skipped', unit=U, what='a listener accepts a dialer certificate whatever network name it is issued for', expect=['CertVerifier::verify_client_cert'],
+         edits=[(CR, """        }) {
+            Ok(ClientCertVerified::assertion())
+        } else {
+            Err(rustls::Error::General("no valid subject name".into()))
+        }""", """        }) {
+            Ok(ClientCertVerified::assertion())
+        } else {
+            Ok(ClientCertVerified::assertion())
+        }""")]),
+    dict(id='c-client-validation-error-ignored', unit=U, what='a listener ignores a failed webpki validation of the dialer certificate', expect=['CertVerifier::verify_client_cert'],
+         edits=[(CR, """                webpki::KeyUsage::client_auth(),
+                None,
+                None,
+            )
+            .map_err(pki_error)?;""", """                webpki::KeyUsage::client_auth(),
+                None,
+                None,
+            )
+            .map_err(pki_error);
+        let verified_cert = match verified_cert { Ok(v) => v, Err(_) => return Ok(ClientCertVerified::assertion()) };""")]),
+    dict(id='c-client-usage-server-auth', unit=U, what='a listener validates the dialer certificate for the wrong key usage', expect=['CertVerifier::verify_client_cert::valid_self_signed_ed25519_for_client_auth'],
+         edits=[(CR, '                webpki::KeyUsage::client_auth(),\n', '                webpki::KeyUsage::server_auth(),\n')]),
+    dict(id='c-client-refuses-own-network', unit=U, what='a listener refuses every dialer certificate (nodes of one network cannot connect)', expect=['CertVerifier::verify_client_cert::accepts_own_network'],
+         edits=[(CR, """        }) {
+            Ok(ClientCertVerified::assertion())
+        } else {""", """        }) {
+            Err(rustls::Error::UnsupportedNameType)
+        } else {""")]),
 ]
